@@ -46,8 +46,9 @@ def tvar(s, k, e, j):
     return z3.Real(f"T_{s}_{k}_{e}_{j}")
 
 
-def dummy_X(n, p):
-    return pd.DataFrame(np.zeros((n, p)))
+def dummy_X(n, p, xdtype="float"):
+    X = pd.DataFrame(np.zeros((n, p)))
+    return X if xdtype == "float" else X.astype(xdtype)
 
 
 class MirrorScore(TableChangeScore):
@@ -59,14 +60,18 @@ class MirrorScore(TableChangeScore):
         return super()._evaluate(np.column_stack((n - cuts[:, 2], n - cuts[:, 1], n - cuts[:, 0])))
 
 
-def make_mw(n, b, p=1, mdi=1, mode="c08"):
+def make_mw(n, b, p=1, mdi=1, mode="c08", xdtype="float"):
+    """xdtype: dtype of the (dummy) data frame -- the scores are arbitrary reals whatever the data's dtype is, so
+    a work array allocated from the data's dtype must not be able to change them (seed C08-d)."""
     ts = z3.Real("tscale")
     base = [ts >= 0]
-    X = dummy_X(n, p)
-    info = dict(n=n, b=b, p=p, mdi=mdi)
+    X = dummy_X(n, p, xdtype)
+    info = dict(n=n, b=b, p=p, mdi=mdi, xdtype=xdtype)
 
     def run(eng, acc):
         from skchange.change_detectors import MovingWindow
+        from .prelude import prelude
+        prelude("MovingWindow", n, p, b, xdtype=xdtype)
         try:
             det = MovingWindow(TableChangeScore(p=p), bandwidth=b, threshold_scale=SymReal(ts), min_detection_interval=mdi)
             det.fit(X)
@@ -140,25 +145,27 @@ def make_mw(n, b, p=1, mdi=1, mode="c08"):
                            dict(info, cpts=cpts, reversed_cpts=cpts2))
         else:
             acc.inc("O4.tie_only_paths")
-        _witness(eng, acc, n, b, p, mdi, cpts, sv)
+        _witness(eng, acc, n, b, p, mdi, cpts, sv, xdtype=xdtype)
         acc.sample(dict(info, cpts=cpts, exceeds=exceeds, score_b=str(z3.simplify(sv[b]))))
 
     return Harness(run, base, name=f"mw {info}")
 
 
-def _native(n, b, p, mdi, values, tscale):
+def _native(n, b, p, mdi, values, tscale, xdtype="float"):
     from skchange.change_detectors import MovingWindow
+    from .prelude import prelude
+    prelude("MovingWindow", n, p, b, xdtype=xdtype)
     with proxy.native():
         det = MovingWindow(TableChangeScore(p=p, values=values), bandwidth=b, threshold_scale=float(tscale),
                            min_detection_interval=mdi)
-        X = dummy_X(n, p)
+        X = dummy_X(n, p, xdtype)
         det.fit(X)
         out = det.predict(X)
         sc = det.transform_scores(X)
         return out, np.asarray(sc.values, dtype=float), float(det.threshold_), getattr(getattr(det, "_change_score", None), "requested_", [])
 
 
-def _witness(eng, acc, n, b, p, mdi, cpts, sv, cap=50):
+def _witness(eng, acc, n, b, p, mdi, cpts, sv, cap=50, xdtype="float"):
     if acc.total("witness_tried") >= cap:
         return
     acc.inc("witness_tried")
@@ -169,7 +176,7 @@ def _witness(eng, acc, n, b, p, mdi, cpts, sv, cap=50):
     env = model_env(model)
     values = {k: v for k, v in env.items() if k.startswith("T_")}
     try:
-        out, sc, _, _ = _native(n, b, p, mdi, values, env.get("tscale", 0.0))
+        out, sc, _, _ = _native(n, b, p, mdi, values, env.get("tscale", 0.0), xdtype)
     except Exception as ex:
         acc.error(f"C08 witness: native run raised {type(ex).__name__}: {ex}")
         return
@@ -226,6 +233,9 @@ def jobs(tier, mode="c08"):
         for mdi in admissible_mdi(b):
             big = n - 2 * b >= 5
             out.append(Job(M, "make_mw", dict(n=n, b=b, p=p, mdi=mdi, mode=mode), split=big))
+    # the same claims when the data are integer typed (the scores are still arbitrary reals)
+    for (n, b, p) in ([(4, 1, 1), (5, 2, 1)] if tier == "quick" else [(4, 1, 1), (5, 1, 2), (5, 2, 1), (7, 3, 1)]):
+        out.append(Job(M, "make_mw", dict(n=n, b=b, p=p, mdi=1, mode=mode, xdtype="int64")))
     if mode == "c08":
         for (n, b, p) in l2:
             out.append(Job(M, "make_mw_l2", dict(n=n, b=b, p=p)))
@@ -249,7 +259,7 @@ def replay(cx):
     model = cx.get("model") or {}
     ob = cx["ob"]
     n, b, p, mdi = info.get("n"), info.get("b"), info.get("p", 1), info.get("mdi", 1)
-    key = f"{ob}|b={'1' if b == 1 else '>=2'}"
+    key = f"{ob}|b={'1' if b == 1 else '>=2'}" + ("" if info.get("xdtype", "float") == "float" else "|" + info["xdtype"])
     if info.get("scorer") == "L2Cost":
         from skchange.change_detectors import MovingWindow
         from skchange.costs import L2Cost
@@ -272,7 +282,7 @@ def replay(cx):
                     full[f"T_{s}_{k}_{e}_{j}"] = values.get(f"T_{s}_{k}_{e}_{j}", 0.001 * (1 + s + 7 * k + 31 * e + j) + (3.0 if (s + k + e) % 2 else 0.0))
     tscale = float(Fraction(model.get("tscale", "1")))
     try:
-        out, sc, th, req = _native(n, b, p, mdi, full, tscale)
+        out, sc, th, req = _native(n, b, p, mdi, full, tscale, info.get("xdtype", "float"))
     except Exception as ex:
         return dict(reproduced=True, key=f"{ob}|exception", what=f"MovingWindow(bandwidth={b}) on n={n} raised {type(ex).__name__}: {ex}")
     bad = []
